@@ -13,12 +13,12 @@ FIELDS = ["a", "b"]
 CHOICES = {1: ("%v0", "%v1"), 2: ("%v0", "%v2"), 3: ("IV", "%v1"), 4: ("%v2", "IV")}
 
 
-def tlc_programs(pid, nv, maxnodes, maxdepth):
+def tlc_programs(pid, nv, maxnodes, maxdepth, withcalls=True):
     d = os.path.join(WORK, pid)
     os.makedirs(d, exist_ok=True)
     cfg = os.path.join(SPEC, f".ProgGen_{pid}.cfg")
     with open(cfg, "w") as f:
-        f.write(f"SPECIFICATION Spec\nCONSTANTS\n  NV = {nv}\n  MaxNodes = {maxnodes}\n  MaxDepth = {maxdepth}\nINVARIANT Emit\nCHECK_DEADLOCK FALSE\n")
+        f.write(f"SPECIFICATION Spec\nCONSTANTS\n  NV = {nv}\n  MaxNodes = {maxnodes}\n  MaxDepth = {maxdepth}\n  WithCalls = {1 if withcalls else 0}\nINVARIANT Emit\nCHECK_DEADLOCK FALSE\n")
     try:
         r = run_tlc("ProgGen", os.path.basename(cfg), workers=4, timeout=900)
     finally:
